@@ -57,6 +57,17 @@ func (lb *loadBalancer) Remove(u Upstream) bool {
 	return len(lb.upstreams) == 0
 }
 
+// Contains returns whether the upstream is registered with the load
+// balancer.
+func (lb *loadBalancer) Contains(u Upstream) bool {
+	for i := 0; i != len(lb.upstreams); i++ {
+		if lb.upstreams[i] == u {
+			return true
+		}
+	}
+	return false
+}
+
 func (lb *loadBalancer) Next() Upstream {
 	if len(lb.upstreams) == 0 {
 		return nil
@@ -137,6 +148,12 @@ func (m *LoadBalancedManager) RemoveConn(u Upstream) {
 
 	lb, ok := m.localUpstreams[u.EndpointID()]
 	if !ok {
+		return
+	}
+	// Ignore upstreams that are not registered, such as an upstream that has
+	// already been removed, otherwise the endpoint count of the remaining
+	// upstreams would be decremented.
+	if !lb.Contains(u) {
 		return
 	}
 	if lb.Remove(u) {
